@@ -442,7 +442,7 @@ pub fn special_cases() -> Vec<(String, Vec<u8>)> {
     }
     // a long chain of /Parent references (each load nests in the previous one) that ends in an object of the wrong kind / a
     // missing object / a cycle: failures must not be retried once per level (exponential work)
-    for (name, depth, end) in [("parent-chain-24-ends-in-wrong-type", 24usize, 0), ("parent-chain-24-ends-in-missing-object", 24, 1), ("parent-chain-40-ends-in-cycle", 40, 2), ("parent-chain-60-fine", 60, 3)] {
+    for (name, depth, end) in [("parent-chain-24-ends-in-wrong-type", 24usize, 0), ("parent-chain-24-ends-in-missing-object", 24, 1), ("parent-chain-40-ends-in-cycle", 40, 2), ("parent-chain-60-fine", 60, 3), ("parent-chain-2000-fine", 2000, 3), ("parent-chain-20000-fine", 20000, 3), ("parent-chain-200000-fine", 200000, 3), ("parent-chain-20000-ends-in-cycle", 20000, 2)] {
         let mut fb = FileBuilder::new(b"");
         fb.add(1, 0, &cat);
         let first = 10u64;
